@@ -51,27 +51,28 @@ Inductive mop :=
   | MArgFromStack (i : nat) (off : Z) (bits : Z)  (* callee: parameter i loaded from [rbp + off] *)
   | MRet.
 
-(* ---- rendering for correspondence case files ---- *)
+(* ---- rendering for correspondence case files (numeric tags: string literals are slow to parse;
+   register names are not compared, num and class are) ---- *)
 #[global] Instance ToVal_reg : ToVal reg :=
-  fun r => VT [VS (rname r); VZ (rnum r); VZ (rcls_tag (rclass r))].
+  fun r => VT [VZ (rnum r); VZ (rcls_tag (rclass r))].
 #[global] Instance ToVal_aloc : ToVal aloc :=
   fun l => match l with
-           | LReg r => VT [VS "reg"; toval r]
-           | LStack o s => VT [VS "stack"; VZ o; VZ s]
+           | LReg r => VT [VZ 0; toval r]
+           | LStack o s => VT [VZ 1; VZ o; VZ s]
            end.
 #[global] Instance ToVal_mop : ToVal mop :=
   fun o => match o with
-           | MLabel => VT [VS "label"]
-           | MPush r => VT [VS "push"; toval r]
-           | MPop r => VT [VS "pop"; toval r]
-           | MPushArg i => VT [VS "pusharg"; VZ (Z.of_nat i)]
-           | MSub n => VT [VS "sub"; VZ n]
-           | MAdd n => VT [VS "add"; VZ n]
-           | MMovFpSp => VT [VS "movfpsp"]
-           | MArgToReg r i => VT [VS "argtoreg"; toval r; VZ (Z.of_nat i)]
-           | MCall => VT [VS "call"]
-           | MRvFrom r => VT [VS "rvfrom"; toval r]
-           | MArgFromReg i r => VT [VS "argfromreg"; VZ (Z.of_nat i); toval r]
-           | MArgFromStack i off b => VT [VS "argfromstack"; VZ (Z.of_nat i); VZ off; VZ b]
-           | MRet => VT [VS "ret"]
+           | MLabel => VT [VZ 0]
+           | MPush r => VT [VZ 1; toval r]
+           | MPop r => VT [VZ 2; toval r]
+           | MPushArg i => VT [VZ 3; VZ (Z.of_nat i)]
+           | MSub n => VT [VZ 4; VZ n]
+           | MAdd n => VT [VZ 5; VZ n]
+           | MMovFpSp => VT [VZ 6]
+           | MArgToReg r i => VT [VZ 7; toval r; VZ (Z.of_nat i)]
+           | MCall => VT [VZ 8]
+           | MRvFrom r => VT [VZ 9; toval r]
+           | MArgFromReg i r => VT [VZ 10; VZ (Z.of_nat i); toval r]
+           | MArgFromStack i off b => VT [VZ 11; VZ (Z.of_nat i); VZ off; VZ b]
+           | MRet => VT [VZ 12]
            end.
